@@ -266,6 +266,8 @@ func (vc *VC) call(in ssa.Instruction, cc *ssa.CallCommon, h *Heap) []string {
 				if len(rows) > 0 {
 					vc.assume(fmt.Sprintf("(forall ((k Int)) (! (=> (and (<= %s k) (< k %s)) (and (<= %s (%s k)) (< (%s k) %s) %s)) :pattern ((select %s k))))", lo, hi, lo, perm, perm, hi, strings.Join(eqs, " "), rows[0]))
 				}
+				// a sort permutes: distinct positions come from distinct positions
+				vc.assume(fmt.Sprintf("(forall ((k1 Int) (k2 Int)) (! (=> (and (<= %s k1) (< k1 %s) (<= %s k2) (< k2 %s) (not (= k1 k2))) (not (= (%s k1) (%s k2)))) :pattern ((%s k1) (%s k2))))", lo, hi, lo, hi, perm, perm, perm, perm))
 				vc.note("sort.*: result elements are old elements (ordering by the comparator not modelled)")
 				return nil
 			}
